@@ -18,7 +18,9 @@ RULE = ("(i) the finite header space is enumerated: delimited streams with an em
         "exactly 10 (and 9, 11, 127, 128, 300), and pyjelly serializer output in both modes with the stream name padded so "
         "that the options row length sweeps 8..140 (each also parsed from a BytesIO positioned after a foreign prefix that would "
         "classify the other way), and with a literal sized so that the frame length sweeps 118..136 and "
-        "16370..16530 (1/2/3-byte length varints) - both modes must be detected by get_options_and_frames and parse to "
+        "16370..16530 (1/2/3-byte length varints); the crafted streams and every fourth pyjelly pair are also supplied through "
+        "24 awkward file objects (raw / buffered, seekable and not, whose first read or look-ahead shows 1-2 bytes; a buffered "
+        "reader with 1-2 bytes left in its buffer; gzip over a dribbling file) - both modes must be detected by get_options_and_frames and parse to "
         "the same statements. Non-trivial: headers containing 0x0A in byte 1 or 2; distinct by header bytes / stream bytes.")
 ASSUMPTIONS = [
     "domain as stated by the property: the first frame is empty or starts with a row (no metadata-only first frame)",
@@ -129,6 +131,31 @@ def parse_at_offset(data: bytes, want_delim: bool):
     return opts.params.delimited, T.norm_events(pj.parse("generic", "flat", f))
 
 
+def probe_sources(data: bytes, want_delim: bool, want_events):
+    """The same bytes through file objects whose first look at the stream is awkward (short first reads, look-ahead
+    that shows < 3 bytes, a buffer with 1-2 bytes left).  -> (name, detected, problem) of the first one that differs."""
+    from .. import sources
+    for name, make in sources.header_probe_sources(data):
+        f = make()
+        try:
+            opts, _frames = get_options_and_frames(f)
+            det = opts.params.delimited
+        except Exception as ex:  # noqa: BLE001
+            return name, None, f"get_options_and_frames raised {type(ex).__name__}: {ex}"
+        if det != want_delim:
+            return name, det, f"classified delimited={det}"
+        try:
+            evs = T.norm_events(pj.parse("generic", "flat", make()))
+        except Exception as ex:  # noqa: BLE001
+            return name, det, f"parse raised {type(ex).__name__}: {ex}"
+        if evs != want_events:
+            return name, det, "parses to different statements"
+    return None
+
+
+N_PROBE_SOURCES = 24
+
+
 def judge_pair(desc, first_rows, rest_rows):
     """Same content, both framings -> both detected and equal parse."""
     want = None
@@ -157,6 +184,10 @@ def judge_pair(desc, first_rows, rest_rows):
             return {"clause": "misclassified", "mode": mode, "header": data[:3].hex(),
                     "summary": f"{desc}: {mode} stream handed over at a non-zero BytesIO position (after a foreign prefix) is "
                                f"classified delimited={d2} / parses differently"}
+        bad = probe_sources(data, want_delim, evs)
+        if bad:
+            return {"clause": "misclassified-through-source", "mode": mode, "header": data[:3].hex(), "source": bad[0],
+                    "summary": f"{desc}: {mode} stream supplied as {bad[0]}: {bad[2]}"}
         out.append(evs)
     if not (out[0] == out[1] == out[2]):
         return {"clause": "paired-parse-differs", "summary": f"{desc}: the framings parse to different results"}
@@ -193,6 +224,13 @@ def pyjelly_pairs(ctx, rng):
                                           f"{data[:3].hex()} misclassified"})
             try:
                 results.append(T.norm_events(pj.parse("generic", "flat", data)))
+                if pad % 4 == 0:
+                    bad = probe_sources(data, delimited, results[-1])
+                    ctx.observe("streams-probed-through-awkward-sources")
+                    if bad:
+                        ctx.violation({"clause": "misclassified-through-source", "mode": "delimited" if delimited else "non-delimited",
+                                       "header": data[:3].hex(), "cfg": dict(cfg), "stmts": T.to_json(stmts), "source": bad[0],
+                                       "summary": f"pyjelly {'delimited' if delimited else 'non-delimited'} output supplied as {bad[0]}: {bad[2]}"})
                 d2, evs2 = parse_at_offset(data, delimited)
                 if d2 != delimited or evs2 != results[-1]:
                     ctx.violation({"clause": "misclassified", "mode": "delimited" if delimited else "non-delimited",
@@ -341,6 +379,9 @@ def replay(w: dict):
                 res.append(T.norm_events(pj.parse("generic", "flat", data)))
             except Exception as ex:  # noqa: BLE001
                 return {"clause": "parse-raised", "summary": str(ex)}
+            bad = probe_sources(data, delimited, res[-1])
+            if bad:
+                return {"clause": "misclassified-through-source", "summary": f"{bad[0]}: {bad[2]}"}
         return None if res[0] == res[1] else {"clause": "paired-parse-differs", "summary": "differs"}
     return {"clause": w.get("clause"), "summary": "re-run ./check C08 to reproduce crafted-stream witnesses"}
 
